@@ -308,6 +308,14 @@ def law_program(rng, a, b):
     # `not a or b` parses as (not a) or b; use nor's definition through a variable instead
     s[-1] = put(bin_('or', v(A), v(B)), X)
     s.append(say(not_(v(X))))                                   # 8
+    # equality must not depend on whether two values share storage: a value against itself and against
+    # an unmodified copy (assignment, through a function, through an array cell)
+    C_, ID = sv('cc'), sv('identity')
+    alias = [say(st('alias')), say(('bin', 'eq', v(A), [v(A)], 'is')), put(v(A), C_), say(('bin', 'eq', v(A), [v(C_)], 'is')),
+             say(('bin', 'eq', v(C_), [v(A)], 'is')), say(bin_('noteq', v(A), v(C_))),
+             ('func', ID, [sv('pp')], [('return', v(sv('pp')), False, False)]), say(('bin', 'eq', v(A), [call(ID, v(A))], 'is')),
+             put_at(v(A), v(sv('holder')), num(0)), say(('bin', 'eq', sub(v(sv('holder')), num(0)), [v(A)], 'is')), say(st('endalias'))]
+    s += alias
     # compound assignment vs expanded form
     op = rng.choice(['plus', 'minus', 'multiply', 'divide'])
     if not (op == 'multiply' and big_repeat(a, b)):
@@ -351,6 +359,16 @@ def check_law_output(lines, c, d, a, b, ans):
     if nota != (not ta) or and_ != (ta and tb) or or_ != (ta or tb) or nor_ != (not (ta or tb)) or notor != nor_:
         return 'not/and/or/nor disagree with truthiness'
     rest = lines[9:]
+    if rest and rest[0] == 'alias':
+        k = rest.index('endalias') if 'endalias' in rest else None
+        if k is None:
+            return 'the aliasing section stopped early: %s %s' % (c, d)
+        al = rest[1:k]
+        self_eq = ans[('eq', a, a)] == 't'
+        want = ['true' if self_eq else 'false'] * 3 + ['false' if self_eq else 'true'] + ['true' if self_eq else 'false'] * 2
+        if al != want:
+            return 'equality of a value with itself / with an unmodified copy (%r) differs from comparing two separately built equal values (%s)' % (al, self_eq)
+        rest = rest[k + 1:]
     if rest and rest[0] == 'compound':
         if len(rest) < 4:
             return 'compound assignment stopped early'
@@ -506,6 +524,26 @@ DEGENERATE = [
 ]
 
 
+def sized_programs():
+    """error messages embedding strings / keys / arrays of boundary sizes, multi-byte characters at every alignment;
+    calls, rock lists and subscript chains around the inline capacity of the small vectors (8)"""
+    out = []
+    for L in progs.SIZES[:27]:
+        for pad in (0, 1):
+            text = 'a' * pad + 'é' * ((L - pad) // 2 + 1)
+            out.append('X is "%s"\nknock X down\n' % text)
+            out.append('X is "%s"\nsay X at "k"\n' % ('b' * L))
+            out.append('let X at "%s" be 1\nlet X at "%s" be 2\ncast X\n' % ('k' * L + 'é', 'k' * L + 'ü'))
+            out.append('rock X with "%s"\nsay X at 0 is less than true\n' % ('Ω' * (L // 2) + 'z' * pad))
+    for k in (7, 8, 9, 10, 17):
+        args = ', '.join(str(i) for i in range(k))
+        params = ', '.join('p' + progs.alpha(i) for i in range(k))
+        out.append('F takes %s\ngive back p%s\n\nsay F taking %s\n' % (params, progs.alpha(k - 1), args))
+        out.append('rock X with %s\nsay X\nsay X at %d\n' % (args, k - 1))
+        out.append('let X%s be 5\nsay X%s\nsay X\n' % (' at 1' * k, ' at 1' * k))
+    return out
+
+
 def c09(run):
     rng = run.rng
     n = run.n(2500, 100000)
@@ -515,7 +553,7 @@ def c09(run):
                 'degenerate poetic literals; control-flow keywords at top level and across blank lines), and mutations of those; '
                 'the model decides which stay within the step/size budget; non-trivial = the program is accepted by the parser; '
                 'distinct by program text' % len(DEGENERATE))
-    cases = [(s, 'catalogue') for s in DEGENERATE]
+    cases = [(s, 'catalogue') for s in DEGENERATE] + [(s, 'sized') for s in sized_programs()]
     names = [('simple', 'X'), ('simple', 'F'), ('common', 'the', 'cat'), ('proper', ['Doctor', 'Feelgood'])]
     while len(cases) < n:
         r = rng.random()
@@ -675,17 +713,29 @@ def c08(run):
                     if (c2, d2, out2, reads2) != (c, d, out, reads):
                         run.fail(case, 'a reader fault that is never reached changes the run')
     run.extra['fault_positions'] = total_faults
-    # say prints the canonical text, listen stores exactly the line
+    # say prints the canonical text, listen stores exactly the line — also for lines around the buffer sizes of the
+    # reader (8 KiB BufReader, 64 KiB, 1 MiB), ASCII and multi-byte
     echo = []
     for s in ['plain', '', ' spaces  ', 'tab\there', 'Ωé', 'cr\r', '"quoted"', '0', 'null']:
         echo.append(s)
+    for L in [8191, 8192, 8193, 16384, 65535, 65537] + ([1048575, 1048577, 2100000] if True else []):
+        echo.append('x' * L)
+        echo.append('é' * (L // 2) + 'y')
     src = 'listen to X\nsay X\n' * len(echo)
     stdin = '\n'.join(echo) + '\n'
-    r = common.impl([run_req(src, stdin)])[0]
+    r = common.impl([run_req(src, stdin)], stall_s=60)[0]
     c, d, out, reads = run_parts(r)
     run.case(('echo',), True, kind='echo')
     if out.decode('utf-8', 'replace') != stdin or reads != len(echo):
-        run.fail({'program': src, 'stdin': stdin, 'answer': r}, 'listen/say do not reproduce the input lines one by one')
+        got = out.decode('utf-8', 'replace').split('\n')
+        k = next((i for i, (x, y) in enumerate(zip(got, echo)) if x != y), min(len(got), len(echo)))
+        run.fail({'program': 'listen to X / say X, %d times' % len(echo), 'line_lengths': [len(x) for x in echo], 'first_wrong_line': k,
+                  'expected_length': len(echo[k]) if k < len(echo) else None, 'got_length': len(got[k]) if k < len(got) else None,
+                  'outcome': c + ' ' + d, 'reads': reads},
+                 'listen/say do not reproduce the input lines one by one (line %d)' % k)
+    mr = common.model([run_req(src, stdin)], stall_s=120)[0]
+    if proj_run(mr) != proj_run(r):
+        run.disagree({'program': 'listen to X / say X, %d times; line lengths %s' % (len(echo), [len(x) for x in echo])}, mr[:80], r[:80], True)
 
 
 # ----------------------------------------------------------------------------- C10
@@ -693,6 +743,11 @@ def c08(run):
 def dict_program(rng):
     A = sv('dd')
     keys = rng.sample(['a', 'b', 'c', 'd', 'e', 'ff', 'zz', 'k1' if False else 'kk', '', 'Ω', 'true', 'null'], rng.randint(2, 8))
+    if rng.random() < 0.3:
+        # long keys sharing a long prefix (paths, URLs): boundary lengths
+        L = rng.choice(progs.SIZES[:24])
+        pre = rng.choice(['k', 'é', 'path/']) * L
+        keys = [pre[:L] + suf for suf in rng.sample(['a', 'b', 'c', 'dd', 'e', 'zz', '0', 'Ω'], rng.randint(2, 6))]
     stmts = []
     for k in keys:
         kind = rng.random()
@@ -1171,11 +1226,27 @@ def c07(run):
 def mutation_program(rng, strs, delims):
     S, P, R, A = sv('ss'), sv('pp'), sv('rr'), sv('arr')
     r = rng.random()
+    if r < 0.25:
+        # evaluation order: the parameter is evaluated first; it may read a variable (which becomes the pronoun
+        # referent), or have a side effect on the operand
+        D, W, L = sv('dd'), sv('ww'), sv('ll')
+        k = rng.randrange(5)
+        if k == 0:
+            prog = [put(st('a,b,c'), S), put(st(','), D), say(v(S)), ('mut', 'cut', v(S), ('lid', ('pronoun', 'it')), v(D)), say(v(S)), say(v(D))]
+        elif k == 1:
+            prog = [put(st('ff'), S), put(num(16), D), say(v(S)), ('mut', 'cast', v(S), ('lid', ('pronoun', 'it')), v(D)), say(v(S)), say(v(D))]
+        elif k == 2:
+            prog = [('push', v(W), ('list', [st('-'), st('a'), st('b')])), ('mut', 'join', v(W), ('lid', L), ('popx', v(W))), say(v(L)), say(v(W))]
+        elif k == 3:
+            prog = [put(st('x y z'), S), put(st(' '), D), ('mut', 'cut', v(('pronoun', 'it')) if False else v(S), ('lsub', v(A), v(D)), v(D)), say(sub(v(A), st(' '))), say(v(S))]
+        else:
+            prog = [put(st('a-b'), S), put(st('-'), D), say(v(D)), ('mut', 'cut', v(S), ('lid', R), v(('pronoun', 'it'))), say(v(R)), say(v(S)), say(v(D))]
+        return progs.render(rng, [prog]), {'op': 'order', 'into': False}
     s = rng.choice(strs)
     d = rng.choice(delims)
     while '"' in s or '"' in d or '\n' in s or '\n' in d:
         s, d = rng.choice(strs), rng.choice(delims)
-    if r < 0.4:
+    if r < 0.55:
         # round trip through statements: operand keeps its value with `into`
         prog = [put(st(s), S), say(v(S)), ('mut', 'cut', v(S), ('lid', P), st(d)), say(v(S)),
                 ('mut', 'join', v(P), ('lid', R), st(d)), say(('bin', 'eq', v(R), [v(S)], 'is') if s else TRUE)]
